@@ -7,7 +7,7 @@ type waitq struct{ ts []*task }
 //go:norace
 func (s *Sched) addWaiter(w *waitq, t *task) {
 	s.lock()
-	w.ts = append(w.ts, t)
+	w.ts = push(w.ts, t)
 	s.unlock()
 }
 
@@ -177,7 +177,7 @@ func (w *WaitGroup) Wait() {
 		s.lock()
 		n := w.n
 		if n != 0 {
-			w.w.ts = append(w.w.ts, t)
+			w.w.ts = push(w.w.ts, t)
 		}
 		s.unlock()
 		if n == 0 {
